@@ -1,14 +1,16 @@
 // c05: histories of a wallet's life on the REAL wallet (create / new address / sign / export /
 // reveal / removal check / import / public-passphrase change / restart, with right and wrong
 // passphrases); after every step
-//   (i)  the RAW LevelDB directory of the wallet database (a copy, opened with goleveldb, every key
-//        and value; plus the raw bytes of every file of the directory, which still hold overwritten
-//        and deleted records), every exported keystore JSON and every returned error string are
-//        searched for every secret of the wallet in every encoding it could leak in;
-//   (ii) the rows under the wallet's bucket k/km/<id> are listed with their lengths, to be compared
-//        with the term table of the Coq model (Keys/Store.v);
-//   (iii) for operations that need a secret: outcome, and whether the raw database content and the
-//        unlock state are unchanged after a refusal.
+//
+//	(i)  the RAW LevelDB directory of the wallet database (a copy, opened with goleveldb, every key
+//	     and value; plus the raw bytes of every file of the directory, which still hold overwritten
+//	     and deleted records), every exported keystore JSON and every returned error string are
+//	     searched for every secret of the wallet in every encoding it could leak in;
+//	(ii) the rows under the wallet's bucket k/km/<id> are listed with their lengths, to be compared
+//	     with the term table of the Coq model (Keys/Store.v);
+//	(iii) for operations that need a secret: outcome, and whether the raw database content and the
+//	     unlock state are unchanged after a refusal.
+//
 // Lines (TAB separated):
 //
 //	W  hist  right-pass(hex)  0  0  addrs(b.i,...)        a manager (re)starts: model state reset
